@@ -11,18 +11,27 @@ use emulator_2a_lib::runner::{RunExpectationsBuilder, RunnerConfigBuilder, Verif
 use std::panic::{catch_unwind, AssertUnwindSafe};
 
 const TEMPLATES: &[&str] = &[
-    "#! mrasm\n CLR R0\nloop: INC R0\n ST (0xFF), R0\n CMP R0, {K}\n JZS end\n JR loop\nend: ST (0xFE), R0\n STOP\n",
-    "#! mrasm\n JR main\n JR isr\nmain: LDSP 0xEF\n BITS (0xF9), 1\n EI\n CLR R0\nloop: INC R0\n ST (0xFE), R0\n JR loop\nisr: ST (0xFF), R0\n RETI\n",
-    "#! mrasm\n JR main\n JR isr\nmain: LDSP 0xEF\n BITS (0xF9), 1\n EI\nloop: JR loop\nisr: MOV (0xFF), 1\n STOP\n",
-    "#! mrasm\n*STACKSIZE 16\n LDSP 0xEF\n CLR R0\nloop: PUSH R0\n INC R0\n ST (0xFF), R0\n JR loop\n",
+    "#! mrasm\n CLR R0\nloop:\n INC R0\n ST (0xFF), R0\n CMP R0, {K}\n JZS end\n JR loop\nend:\n ST (0xFE), R0\n STOP\n",
+    "#! mrasm\n JR main\n JR isr\nmain:\n LDSP 0xEF\n BITS (0xF9), 1\n EI\n CLR R0\nloop:\n INC R0\n ST (0xFE), R0\n JR loop\nisr:\n ST (0xFF), R0\n RETI\n",
+    "#! mrasm\n JR main\n JR isr\nmain:\n LDSP 0xEF\n BITS (0xF9), 1\n EI\nloop:\n JR loop\nisr:\n MOV (0xFF), 1\n STOP\n",
+    "#! mrasm\n*STACKSIZE 16\n LDSP 0xEF\n CLR R0\nloop:\n PUSH R0\n INC R0\n ST (0xFF), R0\n JR loop\n",
     "#! mrasm\n LD R0, (0xFC)\n LD R1, (0xFD)\n ADD R0, R1\n ST (0xFF), R0\n LD R2, (0xFE)\n ST (0xFE), R2\n STOP\n",
     "#! mrasm\n",
     "#! mrasm\n STOP\n",
     "#! mrasm\n .DB 0\n",
-    "#! mrasm\nloop: LD R0, (0xFF)\n ST (0xFF), R0\n LD R1, (0xF0)\n ST (0xFE), R1\n JR loop\n",
+    "#! mrasm\nloop:\n LD R0, (0xFF)\n ST (0xFF), R0\n LD R1, (0xF0)\n ST (0xFE), R1\n JR loop\n",
     "#! mrasm\n*PROGRAMSIZE {K}\n INC R0\n ST (0xFF), R0\n INC R0\n ST (0xFE), R0\n INC R0\n NOP\n NOP\n NOP\n NOP\n STOP\n",
-    "#! mrasm\n LDSP 0xEF\n CALL sub\n ST (0xFE), R0\n STOP\nsub: LD R0, {K}\n ST (0xFF), R0\n RET\n",
+    "#! mrasm\n LDSP 0xEF\n CALL sub\n ST (0xFE), R0\n STOP\nsub:\n LD R0, {K}\n ST (0xFF), R0\n RET\n",
     "#! mrasm\n LD R0, {K}\n ST (0xF4), R0\n LD R1, (0xF1)\n ST (0xFF), R1\n LD R1, (0xF0)\n ST (0xFE), R1\n STOP\n",
+    // board registers written by the program (universal I/O output / direction / interrupt control, DACs),
+    // status registers copied to FE/FF for ever: a reset in between must leave the board as the program set it
+    "#! mrasm\n LD R0, {K}\n ST (0xF2), R0\nloop:\n LD R1, (0xF1)\n ST (0xFF), R1\n LD R1, (0xF3)\n ST (0xFE), R1\n INC R2\n JR loop\n",
+    "#! mrasm\n LD R0, 0x87\n ST (0xF2), R0\n LD R0, {K}\n ST (0xF2), R0\nloop:\n LD R1, (0xF1)\n ST (0xFF), R1\n LD R1, (0xF0)\n ST (0xFE), R1\n JR loop\n",
+    "#! mrasm\n LD R0, {K}\n ST (0xF0), R0\n ST (0xF1), R0\nloop:\n LD R1, (0xF1)\n ST (0xFF), R1\n LD R1, (0xF3)\n ST (0xFE), R1\n JR loop\n",
+    // the board is written only in the first pass (a RAM flag survives the CPU reset): after a reset the program
+    // goes straight to the loop that reports the status registers
+    "#! mrasm\n LD R0, (flag)\n TST R0\n JZC skip\n LD R1, 1\n ST (flag), R1\n LD R0, {K}\n ST (0xF2), R0\n ST (0xF1), R0\nskip:\nloop:\n LD R1, (0xF1)\n ST (0xFF), R1\n LD R1, (0xF3)\n ST (0xFE), R1\n JR loop\nflag:\n .DB 0\n",
+    "#! mrasm\n LD R0, (flag)\n TST R0\n JZC skip\n LD R1, 1\n ST (flag), R1\n LD R0, 0xC0\n OR R0, R2\n ST (0xF2), R0\n LD R0, {K}\n ST (0xF2), R0\n ST (0xF0), R0\nskip:\nloop:\n LD R1, (0xF1)\n ST (0xFF), R1\n LD R1, (0xF3)\n ST (0xFE), R1\n JR loop\nflag:\n .DB 0\n",
 ];
 
 const INVALID: &[&str] = &["", "NOP\n", "#! mrasm\n LD R0, 256\n", "#! mrasm\n JR nowhere\n", "#! mrasm\n FOO\n"];
@@ -447,6 +456,26 @@ pub fn run_c12(out: &mut Out, seed: u64, thorough: bool) {
                 out.count("adjacent-interrupts");
             }
             k += step;
+        }
+    }
+    // directed: a CPU reset at every position of a run of the programs that set up the board in their first pass only
+    // (what the program wrote to the board must survive the reset exactly as on the stepped machine)
+    {
+        let n_t = TEMPLATES.len();
+        for (ti, k) in [(n_t - 2, 5u32), (n_t - 2, 0x82), (n_t - 1, 3), (n_t - 1, 0x46), (n_t - 5, 6), (n_t - 4, 1)] {
+            let prog = TEMPLATES[ti].replace("{K}", &k.to_string());
+            let cfg = gen_cfg(&mut rng);
+            let n = 230usize;
+            let step = if thorough { 1 } else { 9 };
+            let mut r = (k as usize) % step;
+            while r < n {
+                let resets = if r % 2 == 0 { vec![r] } else { vec![r, r + 40] };
+                let args = format!("{} {} - {} {}", hexs(prog.as_bytes()), n, csv(&resets), cfg_str(&cfg.c));
+                emit_line(out, &format!("spec.runner {}", args));
+                emit_line(out, &format!("spec.stepped {}", args));
+                out.count("reset-at-every-position");
+                r += step;
+            }
         }
     }
     out.notes.insert("program-pool".into(), format!("{} files from programs/ and testing/programs/", pool.len()));
